@@ -76,7 +76,7 @@ harness!(c04_uf_history2, 12, {
     check_same_all(&uf, &m);
     cov!(!m.is_bot(), "non-trivial partition");
 });
-//@ heavy=1
+//@ tier=thorough heavy=1
 harness!(c04_uf_history3, 14, {
     let (uf, m) = uf_sym::<3>();
     check_same_all(&uf, &m);
@@ -90,7 +90,7 @@ harness!(c04_uf_history4, 16, {
 });
 
 // C04: merge of a second union-find = closure of both edge sets; flag exact (C02).
-//@ prop=C02,C04 heavy=1
+//@ prop=C02,C04 heavy=1 tier=thorough
 harness!(c04_uf_merge, 14, {
     let (mut x, mx) = uf_sym::<2>();
     let (y, my) = uf_sym::<1>();
@@ -104,7 +104,7 @@ harness!(c04_uf_merge, 14, {
     cov!(ch, "changed");
     cov!(!ch, "unchanged");
 });
-//@ prop=C02,C04 heavy=1
+//@ prop=C02,C04 heavy=1 tier=thorough
 harness!(c04_uf_merge_singleton, 14, {
     let (mut x, mx) = uf_sym::<2>();
     let a = below(D as u8);
@@ -119,15 +119,32 @@ harness!(c04_uf_merge_singleton, 14, {
     cov!(!ch, "unchanged");
 });
 
+//@ prop=C02,C04
+harness!(c04_uf_merge_small, 12, {
+    let (mut x, mx) = uf_sym::<1>();
+    let a = below(D as u8);
+    let b = below(D as u8);
+    let delta = UnionFind::<SingletonMap<u8, Cell<u8>>>::new(SingletonMap(a, Cell::new(b)));
+    let ch = x.merge(delta);
+    let mut want = mx;
+    want.link(a as usize, b as usize);
+    assert!(x.model().eqv(&want), "C04 union-find merge(singleton) != join of partitions");
+    assert!(ch == !want.eqv(&mx), "C02 union-find merge(singleton) flag wrong");
+    let (p, q) = (below(D as u8), below(D as u8));
+    assert!(x.same(p, q).into_reveal() == want.same(p as usize, q as usize), "C04 same() after merge != join of partitions");
+    cov!(ch, "changed");
+    cov!(!ch, "unchanged");
+});
+
 // C01/C02/C03 for union-find values reachable through the API (2 symbolic unions each)
 harness!(c01i_uf, 14, { laws::c01i::<Uf>(0); });
-//@ heavy=1
+//@ heavy=1 tier=thorough
 harness!(c01c_uf, 14, { laws::c01c::<Uf>(3); });
 //@ tier=thorough heavy=1
 harness!(c01a_uf, 14, { laws::c01a::<Uf>(3); });
-//@ heavy=1
+//@ heavy=1 tier=thorough
 harness!(c02_uf, 14, { laws::c02::<Uf>(3); });
-//@ heavy=1
+//@ heavy=1 tier=thorough
 harness!(c03m_uf, 14, {
     let x = Uf::sym();
     let y = Uf::sym();
